@@ -642,11 +642,20 @@ impl<T: El> MapWorld<T> {
             OpK::ExtendHint => {
                 // size_hint is only a hint: a wrong one may cost a (documented) capacity-overflow
                 // panic, never anything else, and never differently per build profile
-                let hint = [usize::MAX, usize::MAX - 1, isize::MAX as usize, 1usize << 62][(op.arg & 3) as usize];
-                let ids: Vec<u32> = if T::ZST { vec![0] } else { vec![self.next_key, self.next_key + 1] };
+                // selectors 4..6: an iterator that claims an *exact* length (lower == upper) that is too small -
+                // still only a hint: all 12 items must go in, with nothing worse than for an honest source
+                let sel = (op.arg & 7) as usize;
+                let (hint, upper) = if sel < 4 { ([usize::MAX, usize::MAX - 1, isize::MAX as usize, 1usize << 62][sel], None) } else { ([0usize, 1, 3][(sel - 4).min(2)], Some([0usize, 1, 3][(sel - 4).min(2)])) };
+                let ids: Vec<u32> = if T::ZST {
+                    vec![0]
+                } else if sel < 4 {
+                    vec![self.next_key, self.next_key + 1]
+                } else {
+                    (self.next_key..self.next_key + 12).collect()
+                };
                 let before = self.contents_digest();
                 let elems: Vec<(T, T)> = ids.iter().map(|&q| (Self::mkk(q), Self::mkv(0))).collect();
-                let it = HintIter { inner: elems.into_iter(), hint };
+                let it = HintIter { inner: elems.into_iter(), hint, upper };
                 let r = catch(|| self.call(|m| m.extend(it)));
                 match r {
                     Ok(()) => {
@@ -1371,7 +1380,11 @@ impl<T: El> MapWorld<T> {
     }
 
     fn op_reserve(&mut self, op: Op, obs: &mut H128) -> VResult<()> {
-        let n = op.arg as usize;
+        // bit 60 of a try_reserve argument: memory pressure - while the call runs, every allocation larger
+        // than the largest table this map owns fails (an environment answer: Err(AllocError) is fine, Ok
+        // must be as good as any other Ok)
+        let pressure = op.k == OpK::TryReserve && op.arg >> 60 & 1 == 1;
+        let n = (op.arg & !(1 << 60)) as usize;
         let len = self.m.len();
         let fallible = op.k == OpK::TryReserve;
         // "Err leaves the contents unchanged": the elements, not the capacity (a failed try_reserve
@@ -1383,10 +1396,15 @@ impl<T: El> MapWorld<T> {
         //  must_succeed: small requests
         let total = len.checked_add(n);
         let must_fail = total.is_none();
-        let must_succeed = n <= (1 << 24);
+        let must_succeed = n <= (1 << 24) && !pressure;
         let _ = esz;
+        if pressure {
+            alloc::fail_above(alloc::live_max_bytes().max(64));
+        }
         let outcome: Result<Result<(), String>, String> = if fallible {
-            catch(|| self.call(|m| m.try_reserve(n).map_err(|e| format!("{:?}", e))))
+            let r = catch(|| self.call(|m| m.try_reserve(n).map_err(|e| format!("{:?}", e))));
+            alloc::fail_above(0);
+            r
         } else {
             catch(|| self.call(|m| m.reserve(n))).map(Ok)
         };
@@ -1403,6 +1421,15 @@ impl<T: El> MapWorld<T> {
                 let need = total.unwrap();
                 if self.m.capacity() < need {
                     vbail!("contract", "{} returned normally but capacity {} < len {} + n", op, self.m.capacity(), len);
+                }
+                if pressure {
+                    // whatever table was installed under pressure must keep the head-room promise
+                    let free = self.m.capacity() - self.m.len();
+                    let len0 = self.r.len();
+                    self.fill(free, "head-room after try_reserve under memory pressure")?;
+                    if self.r.len() > len0 && self.m.verif_stats().old.is_some() {
+                        vbail!("contract", "{} under memory pressure: after inserting capacity()-len() = {} new keys a resize is still pending", op, free);
+                    }
                 }
                 obs.u64(1);
             }
@@ -1638,6 +1665,7 @@ impl<T: El> MapWorld<T> {
 pub struct HintIter<I> {
     pub inner: I,
     pub hint: usize,
+    pub upper: Option<usize>,
 }
 impl<I: Iterator> Iterator for HintIter<I> {
     type Item = I::Item;
@@ -1645,7 +1673,7 @@ impl<I: Iterator> Iterator for HintIter<I> {
         self.inner.next()
     }
     fn size_hint(&self) -> (usize, Option<usize>) {
-        (self.hint, None)
+        (self.hint, self.upper)
     }
 }
 
